@@ -165,8 +165,11 @@ def judgeStep (s : JState) (e : Ev) : JState :=
   | .wstop w => match s.getW w with
     | some k => s.setW w { k with stop := true }
     | none => s
-  | .wjoin w t r => match s.getW w with
+  | .wjoin w t r sl => match s.getW w with
     | some k =>
+      -- "within t + one poll interval": at most ceil(t/10) sleeps of 10 ms, none when the thread has finished
+      let s := if sl ≤ (if k.exited then 0 else sleepsFor t.toNat) then s
+               else s.flag s!"timed-join-too-many-sleeps worker={w} timeout={t} sleeps={sl}"
       match r with
       | .overran => s.flag s!"timed-join-unbounded worker={w} timeout={t} thread-finished={k.exited}"
       | .rc1 => if k.exited then s.setW w { k with joined := true } else s.flag s!"join-true-on-live-thread worker={w}"
